@@ -6,11 +6,13 @@ package ast
 
 import (
 	"errors"
+	"regexp"
 	"regexp/syntax"
 	"strings"
 )
 
 var (
+	_ *regexp.Regexp
 	_ strings.Builder
 	_ syntax.Flags
 )
@@ -354,6 +356,12 @@ func IsBoolNode(n Node) bool {
 //@ atcall validateNode assert [C04] chain-keeps-context: is[*UnaryNode](node) && arg_node != nil && arg_node == node.Next() ==> arg_depth == depth && arg_inSubscript == inSubscript
 //@ atcall validateNode assert [C04] chain-keeps-context-binary: is[*BinaryNode](node) && arg_node != nil && arg_node == node.Next() ==> arg_depth == depth && arg_inSubscript == inSubscript
 //@ atcall validateNode assert [C04] chain-keeps-context-other: !is[*UnaryNode](node) && !is[*BinaryNode](node) && !is[*RegexNode](node) && !is[*ArrayIndexNode](node) ==> arg_depth == depth && arg_inSubscript == inSubscript
+
+// the pattern a like_regex node matches with: compiled by Go's regexp from the
+// translated flags and the pattern (quoted when the q flag is given)
+//@ func (*RegexNode).Regexp
+//@ props C12 C04
+//@ ensures [C12] compiled: r0 != nil
 
 // negated flips the sign of a number literal's text: exactly one leading "-" goes or comes
 //@ func negated
